@@ -50,9 +50,17 @@ def gen_problem(rng, max_w=4, max_h=4, max_vertices=10, faults=True):
         cons.append(["location", rng.choice(ids), list(rng.choice(live))])
     if nv >= 3 and rng.random() < 0.3:
         cons.append(["samechip", rng.sample(ids, 2)])
-    devs = [v["id"] for v in vertices if v["cores"] == 0]
+    # A route-endpoint sink stands for an external device attached to a link: the device vertex is pinned
+    # to a chip and the link it hangs off is dead as far as chip-to-chip traffic is concerned (that is how
+    # such links are probed), so the endpoint is unambiguous.
+    devs = [v["id"] for v in vertices if v["cores"] == 0 and not any(c[0] == "location" and c[1] == v["id"] for c in cons)]
     if devs and rng.random() < 0.5:
-        cons.append(["endpoint", devs[0], rng.randint(0, 5)])
+        chip = rng.choice(live)
+        l = rng.randint(0, 5)
+        cons.append(["location", devs[0], list(chip)])
+        cons.append(["endpoint", devs[0], l])
+        if [chip[0], chip[1], l] not in dead_links:
+            dead_links.append([chip[0], chip[1], l])
     # orthogonal keys: distinct values under a common mask
     nbits = 6
     vals = rng.sample(range(1 << nbits), len(nets))
